@@ -982,7 +982,7 @@ def run(ctx):
                     part, {k: v for k, v in b.items() if k in ('n', 'A', 'ordered', 'pc', 'style', 'perm', 'grouping', 'outOrd', 'inOrd', 'pcOut', 'pcIn')},
                     b['observed'], b['allowed'][:2]))
     # code -> spec
-    n = 1500 if ctx.quick else 20000
+    n = 1500 if ctx.quick else 10000
     max_n = 8
     extra = {'seed': ctx.seed, 'max_n': max_n}
     recs = [r for chunk in dump.pmap('engine.adapters.c05', 'observe_chunk', list(range(n)), extra) for r in chunk]
@@ -1030,7 +1030,10 @@ def run(ctx):
     ctx.extra['bounds'] = {'tier': ctx.tier, 'random_records': len(good), 'random_skipped_large_rationals': skipped,
                            'random_with_certificate': big, 'max_inputs_random': max_n,
                            'flat': 'n=2,3 over {0,1/2,1}, n=4 over {0,1} (quick: subsets), 1-3 answer lists',
-                           'groupings': 'all valid groupings of <= %s inputs' % ('5 (6 with <= 3 groups)' if ctx.quick else '7 (8 with <= 4 groups)'),
+                           'groupings_real_graders': 'all valid groupings of <= %s inputs through two-level real graders' % (
+                               '5 (6 with <= 3 groups)' if ctx.quick else '6 (7 with <= 3 groups, 8 with 2 groups)'),
+                           'groupings_group_map': 'all valid groupings of <= %d inputs: laws + helper drift monitor + 1/%d through a real grader' % (
+                               6 if ctx.quick else 8, 4 if ctx.quick else 24),
                            'grader_calls_replayed': total_calls}
     ctx.extra['random_shapes'] = len(shapes)
     ctx.assumptions += [
